@@ -785,6 +785,21 @@ func zzC09RunPath(dir string, p *zzC09Path) (bad int, msgs []string, got *zzC09G
 	return -1, nil, nil, nil
 }
 
+// zzC09Base draws the absolute hour at which a behaviour starts.  The spec's
+// hours are relative and the property must hold wherever the clock stands, so
+// the position is a dimension of the concretisation: the epoch itself, just
+// after it, around the point where the hour number equals the retention limit
+// (in hours), and an ordinary present-day hour.  which < 0 draws it from rng.
+func zzC09Base(rng *rand.Rand, lim, which int) (base uint32) {
+	bases := []uint32{0, 1, uint32(max(lim-1, 0)), uint32(lim), uint32(lim + 1), uint32(2 * lim),
+		470_000 + uint32(rng.Intn(20_000))}
+	if which < 0 {
+		which = rng.Intn(len(bases))
+	}
+
+	return bases[which%len(bases)]
+}
+
 // zzC09CatMap draws an injective map from the abstract categories to the real
 // result categories.
 func zzC09CatMap(rng *rand.Rand, n int) (cm []Result) {
@@ -915,9 +930,11 @@ func zzC09Walk(t *testing.T, g *zzC09Graph, w, nw int, frac int, seed int64, dea
 
 		ws.Restarts++
 		catMap = zzC09CatMap(rng, ncats)
-		base = 470_000 + uint32(rng.Intn(20_000))
-		sysSeed = rng.Int63()
 		st := &g.states[at]
+		// Tours take the clock positions in turn (0, lim-1, lim+1, present, 1,
+		// lim, 2*lim over workers and restarts); worker 0 starts at the epoch.
+		base = zzC09Base(rng, st.Lim, 2*(w+ws.Restarts-1))
+		sysSeed = rng.Int63()
 		y, err = zzC09NewSys(dir, sysSeed, catMap, base, st.Lim, st.En)
 		if err != nil {
 			t.Errorf("fresh module: %v", err)
@@ -1150,6 +1167,131 @@ func TestZZVerifC09Walk(t *testing.T) {
 		"timed_out": sum.TimedOut, "acts": sum.Acts, "act_ms": sum.ActMs, "states": len(g.states), "edges": len(g.edges)})
 }
 
+// TestZZVerifC09Low is the second part of direction A: short behaviours, each on
+// a fresh module -- the shortest path from a fresh state to the source of an
+// edge, then the edge -- with the clock started at the boundary positions of
+// zzC09Base in turn.  Hours only grow, so the long covering tours leave the
+// neighbourhood of the epoch after their first few steps; these behaviours
+// stay there.  Restart edges come first (all of them if the budget allows),
+// the rest is a seeded sample of the other edges.
+func TestZZVerifC09Low(t *testing.T) {
+	zzC09NoSync()
+
+	g := zzC09LoadGraph(t)
+	out := zzNewWriter(t, "VERIF_OUT")
+	defer out.close()
+
+	nw, _ := strconv.Atoi(zzGetenv("VERIF_WORKERS"))
+	nw = max(nw, 1)
+	n, _ := strconv.Atoi(zzGetenv("VERIF_LOW_N"))
+	n = max(n, 1)
+	ncats, _ := strconv.Atoi(zzGetenv("VERIF_NCATS"))
+	ncats = min(max(ncats, 1), int(resultLast)-1)
+
+	rng := rand.New(rand.NewSource(zzSeed()*31337 + 5))
+	var opens, others []int32
+	for i := range g.edges {
+		if g.fromFresh[g.edges[i].S] == -2 {
+			continue
+		}
+
+		if g.edges[i].A == "open" {
+			opens = append(opens, int32(i))
+		} else {
+			others = append(others, int32(i))
+		}
+	}
+
+	rng.Shuffle(len(opens), func(i, j int) { opens[i], opens[j] = opens[j], opens[i] })
+	rng.Shuffle(len(others), func(i, j int) { others[i], others[j] = others[j], others[i] })
+	sel := opens[:min(len(opens), n*2/3)]
+	sel = append(sel, others[:min(len(others), n-len(sel))]...)
+
+	type job struct {
+		p  *zzC09Path
+		ei int32
+	}
+
+	jobs := make([]job, len(sel))
+	for i, ei := range sel {
+		s0, sp := g.shortest(g.edges[ei].S)
+		sp = append(sp, ei)
+		pays := make([]int64, len(sp)) // 0: drawn from the path's own seed
+		jobs[i] = job{ei: ei, p: g.mkPath(s0, sp, pays, rng.Int63(), zzC09Base(rng, g.states[s0].Lim, i), zzC09CatMap(rng, ncats))}
+	}
+
+	mu := &sync.Mutex{}
+	var steps, reads, bad, flaky, restartsLow int
+	acts := map[string]int{}
+	wg := &sync.WaitGroup{}
+	for w := range nw {
+		wg.Add(1)
+		go func() {
+			defer wg.Done()
+
+			dir, err := os.MkdirTemp(zzGetenv("VERIF_DBDIR"), fmt.Sprintf("low%d-", w))
+			if err != nil {
+				t.Errorf("tempdir: %v", err)
+
+				return
+			}
+			defer os.RemoveAll(dir)
+
+			for i := w; i < len(jobs); i += nw {
+				j := jobs[i]
+				at, msgs, got, rerr := zzC09RunPath(dir, j.p)
+				if rerr != nil {
+					t.Errorf("fresh module: %v", rerr)
+
+					return
+				}
+
+				mu.Lock()
+				for k := range j.p.Steps {
+					steps++
+					acts[j.p.Steps[k].A]++
+					if j.p.Steps[k].U {
+						reads++
+					}
+
+					if j.p.Steps[k].A == "open" {
+						restartsLow++
+					}
+				}
+				mu.Unlock()
+
+				if at < 0 {
+					continue
+				}
+
+				// A second time, alone.
+				at2, msgs2, got2, _ := zzC09RunPath(dir, j.p)
+				rec := map[string]any{"kind": "flaky", "leg": "low", "act": j.p.Steps[at].A, "x": j.p.Steps[at].X,
+					"msgs": msgs, "got": got, "want": j.p.Steps[at].O, "lim": j.p.Steps[at].L, "path": j.p}
+				if at2 == at {
+					cut := *j.p
+					cut.Steps = cut.Steps[:at+1]
+					rec["kind"], rec["path"], rec["msgs"], rec["got"] = "bad", &cut, msgs2, got2
+				}
+
+				mu.Lock()
+				if rec["kind"] == "bad" {
+					bad++
+				} else {
+					flaky++
+				}
+
+				out.put(rec)
+				mu.Unlock()
+			}
+		}()
+	}
+
+	wg.Wait()
+	out.put(map[string]any{"kind": "summary", "behaviours": len(jobs), "open_edges": min(len(opens), n*2/3), "steps": steps,
+		"reads": reads, "bad": bad, "flaky": flaky, "restarts": restartsLow, "acts": acts})
+}
+
 // TestZZVerifC09Path replays stored behaviours (isolation / --replay).
 func TestZZVerifC09Path(t *testing.T) {
 	zzC09NoSync()
@@ -1258,7 +1400,7 @@ func TestZZVerifC09Trace(t *testing.T) {
 		rng := rand.New(rand.NewSource(tseed))
 		lim := limits[rng.Intn(len(limits))]
 		en := rng.Intn(8) != 0
-		base := 470_000 + uint32(rng.Intn(20_000))
+		base := zzC09Base(rng, lim, -1)
 		y, nerr := zzC09NewSys(dir, rng.Int63(), zzC09Identity, base, lim, en)
 		if nerr != nil {
 			t.Fatalf("fresh module: %v", nerr)
@@ -1319,7 +1461,7 @@ func TestZZVerifC09Trace(t *testing.T) {
 			up = up && ev != "close" || ev == "open"
 			// Observe after every step while the window is small, less often
 			// when a reply has hundreds of slots.
-			if up && (lim <= 48 || rng.Intn(4) == 0 || ev == "read") {
+			if up && (lim <= 48 || rng.Intn(4) == 0 || ev == "read" || ev == "open") {
 				read()
 			}
 		}
@@ -1380,7 +1522,7 @@ func zzC09RunHist(dir string, seed int64) (h *zzC09Hist, err error) {
 	rng := rand.New(rand.NewSource(seed))
 	lims := []int{2, 2, 3, 3, 4, 24}
 	lim := lims[rng.Intn(len(lims))]
-	base := 470_000 + uint32(rng.Intn(20_000))
+	base := zzC09Base(rng, lim, -1)
 	y, err := zzC09NewSys(dir, rng.Int63(), zzC09Identity, base, lim, true)
 	if err != nil {
 		return nil, err
